@@ -466,6 +466,9 @@ elf_get_page(struct page_io *pio)
 	status = flatmap_get_chunk(ctx->shared->flatmap, &pio->chunk, sz,
 				   0, pls->file_offset + addr - loadaddr);
 	mutex_unlock(&ctx->shared->cache_lock);
+	if (status != KDUMP_OK)
+		return set_read_error(ctx, status, "page data",
+				      pls->file_offset + addr - loadaddr);
 	return status;
 }
 
@@ -1137,6 +1140,8 @@ xc_get_page(struct page_io *pio)
 	status = flatmap_get_chunk(ctx->shared->flatmap, &pio->chunk,
 				   get_page_size(ctx), 0, offset);
 	mutex_unlock(&ctx->shared->cache_lock);
+	if (status != KDUMP_OK)
+		return set_read_error(ctx, status, "page data", offset);
 	return status;
 }
 
